@@ -300,15 +300,34 @@ def guard_eq_zero(body, bb):
 # ---------------------------------------------------------------------------
 # role helpers on top of the model
 
+def setup_group(ctx):
+    """the set-up function and the private, synchronous helpers it calls (a set-up split into `select the structure and
+    counts` / `compute the capacity` / `allocate the channels` is still one set-up)"""
+    m, fb = ctx.model, ctx.fb
+    setup = fb.bodies.get(m.SETUP) if m.SETUP else None
+    if not setup:
+        return []
+    out = [setup]
+    for i in sorted(m.reach_calls(setup.id)):
+        b = fb.bodies[i]
+        if b.id != setup.id and b.kind == "fn" and not (fb.fns.get(b.id) or {}).get("public"):
+            out.append(b)
+    return out
+
+
 def counts_allocs(ctx):
     """COUNTS: the fresh per-run copies of the edge counts: allocation sites in
     SETUP whose callee copies a slice/vec (to_vec/clone/to_owned/collect) and
     whose argument comes from an EdgeCounts getter."""
+    out = {}
+    for sb_ in setup_group(ctx):
+        out.update(_counts_allocs_in(ctx, sb_))
+    return out
+
+
+def _counts_allocs_in(ctx, setup):
     m = ctx.model
     out = {}
-    setup = ctx.fb.bodies.get(m.SETUP) if m.SETUP else None
-    if not setup:
-        return out
     for bb, t in setup.calls():
         p = callee_path(t)
         if p in ("std::slice::<impl [T]>::to_vec", "std::borrow::ToOwned::to_owned", "std::clone::Clone::clone",
@@ -655,7 +674,13 @@ def S1(ctx, rule="S1"):
                       "EdgeCounts fields are not one in-degree and one out-degree vector: %s" % fd["desc"])
         else:
             ctx.unverifiable(rule, "edgecounts-new", "-", "no production call of EdgeCounts::new found")
+    copy_sites = []
     for (b, bb, t) in new_sites:
+        bsig = fb.fns.get(b.id) or {}
+        if bsig.get("impl_self") == "edge_counts::EdgeCounts" and bsig.get("impl_trait") in ("std::clone::Clone", "std::default::Default"):
+            # a hand-written Clone / Default going through the constructor: checked below (field i from field i / empty vectors)
+            copy_sites.append((b, bb, t, bsig.get("impl_trait")))
+            continue
         argkind = []
         for ai, a in enumerate(t["args"]):
             srcs = fl.sources_operand(b, a)
@@ -705,6 +730,36 @@ def S1(ctx, rule="S1"):
                 getter_degree[f["id"]] = field_degree.get(list(fields)[0], "?")
             elif fields:
                 getter_degree[f["id"]] = "?"
+    for (b, bb, t, tr) in copy_sites:
+        okc = True
+        whyc = []
+        for ai, a in enumerate(t["args"]):
+            # constructor parameter ai+1 -> field
+            tgt = [fi for fi in range(len(ec_fields)) if any(s_.kind == "param" and s_[1] == newb.id and s_[2] == ai + 1 for s_ in fl.sources_local(newb, 0, (fi,)))]
+            ex = expr_operand(b, a)
+            if tr == "std::default::Default":
+                srcs = fl.sources_operand(b, a)
+                empt = bool(srcs) and all(s_.kind == "alloc" and s_[4].split("::")[-1] in ("new", "default") for s_ in srcs)
+                if not empt:
+                    okc = False
+                    whyc.append("Default passes a non-empty value for parameter %d" % (ai + 1))
+                continue
+            src_fields = set()
+            for c in walk_expr(ex):
+                if c.kind == "call" and c[1].startswith("edge_counts::EdgeCounts::") and c[1] != newb.id and c[2] and strip_refs(c[2][0]) == E(("arg", 1)):
+                    gb_ = fb.bodies.get(c[1])
+                    if gb_ is not None:
+                        for s_ in fl.sources_local(gb_, 0, ()):
+                            if s_.kind == "param" and s_[1] == gb_.id and s_[2] == 1 and len(s_[3]) >= 1:
+                                src_fields.add(s_[3][0])
+                elif c.kind == "field" and strip_refs(c[1]) == E(("arg", 1)) and isinstance(c[2], int):
+                    src_fields.add(c[2])
+            if len(tgt) != 1 or src_fields != set(tgt):
+                okc = False
+                whyc.append("parameter %d (field %s) is built from field(s) %s of the original" % (ai + 1, tgt, sorted(src_fields)))
+        ctx.check(okc, rule, "degree-vectors|%s" % short(b.id), m.where(b, bb),
+                  "%s of EdgeCounts goes through the constructor with each field built from the same field (or empty vectors)" % tr.split("::")[-1],
+                  "%s of EdgeCounts mixes up the count vectors: %s" % (tr.split("::")[-1], "; ".join(whyc)))
     # (3) FWD / REV roles from build()
     roles = structure_roles(ctx)
     if roles is None:
@@ -742,17 +797,43 @@ def S1(ctx, rule="S1"):
     # derived from an EdgeCounts getter (the getter's slice itself or a fresh copy of it)
     pair_obs = 0
     order_local = None
-    pairs = []
-    for bb, si, s in setup.stmts():
-        if s["k"] == "assign" and s["rv"]["k"] == "agg" and s["rv"]["ak"] in ("tuple", "adt"):
-            ops = s["rv"]["ops"]
-            dag_ops = [o for o in ops if "daggy::Dag" in (o.get("pl", {}).get("ty") or "")]
-            for o in ops:
-                if o in dag_ops or o["k"] == "const":
-                    continue
-                gs = [c for c in walk_expr(expr_operand(setup, o)) if c.kind == "call" and c[1].startswith("edge_counts::EdgeCounts::")]
-                if gs and dag_ops:
-                    pairs.append((bb, dag_ops[0], gs[0][1]))
+
+    def pairs_in(body_):
+        out_ = []
+        for bb, si, s in body_.stmts():
+            if s["k"] == "assign" and s["rv"]["k"] == "agg" and s["rv"]["ak"] in ("tuple", "adt"):
+                ops = s["rv"]["ops"]
+                dag_ops = [o for o in ops if "daggy::Dag" in (o.get("pl", {}).get("ty") or "")]
+                for o in ops:
+                    if o in dag_ops or o["k"] == "const":
+                        continue
+                    gs = [c for c in walk_expr(expr_operand(body_, o)) if c.kind == "call" and c[1].startswith("edge_counts::EdgeCounts::")]
+                    if gs and dag_ops:
+                        out_.append((bb, dag_ops[0], gs[0][1]))
+        return out_
+    pairs = pairs_in(setup)
+    if not pairs:
+        # the pairing may live in a private helper of the set-up function (`stream_order_select`)
+        for hb in setup_group(ctx)[1:]:
+            hp = pairs_in(hb)
+            if hp:
+                pairs = hp
+                setup = hb
+                param_field = {}
+                for pi in range(1, setup.arg_count + 1):
+                    srcs = fl.sources_local(setup, pi, ())
+                    fields = set()
+                    unknown = []
+                    for s in srcs:
+                        if s.kind == "param" and len(s[3]) >= 1 and isinstance(s[3][0], int) and s[2] == 1 and \
+                                (fb.fns.get(s[1], {}).get("impl_self", "") or "").startswith("fn_graph::FnGraph<"):
+                            fields.add(s[3][0])
+                        elif s.kind == "param" and s[1] in (setup.id, m.SETUP):
+                            pass
+                        else:
+                            unknown.append(s)
+                    param_field[pi] = (fields, unknown)
+                break
     if not pairs:
         ctx.unverifiable(rule, "pair", m.where(setup), "no aggregate pairing a structure with an EdgeCounts getter found in the set-up function")
     for (pbb_, sop_, getter) in sorted(pairs, key=lambda x: (x[0], x[2])):
@@ -1399,7 +1480,11 @@ def _moved_from(body, local, target, depth=0):
     return False
 
 
-def loop_region(ctx, body, bb, skip_headers=()):
+POP_DRIVERS = ("std::collections::VecDeque::<T, A>::pop_front", "std::collections::VecDeque::<T, A>::pop_back", "std::vec::Vec::<T, A>::pop",
+               "std::collections::BinaryHeap::<T, A>::pop")
+
+
+def loop_region(ctx, body, bb, skip_headers=(), extra_drivers=()):
     """If bb lies in a loop driven by an iterator-like source -- `for x in it`,
     `while let Some(x) = it.next() / walker.walk_next(g) / topo.next(g)`, or
     `while let Some(x) = stream.next().await / rx.recv().await` -- returns
@@ -1418,7 +1503,7 @@ def loop_region(ctx, body, bb, skip_headers=()):
             if t["k"] != "call":
                 continue
             p = callee_path(t)
-            if p in SYNC_DRIVERS and body.dominates(x, bb):
+            if (p in SYNC_DRIVERS or p in extra_drivers) and body.dominates(x, bb):
                 # the loop's own driver is the one nearest to its header (an inner loop's driver is dominated by it)
                 if cand is None or body.dominates(x, cand[1]):
                     cand = ("sync", x, t, t["dest"]["l"])
@@ -1681,6 +1766,32 @@ def user_awaits(ctx, body):
     return out
 
 
+def fnref_drop_frame(ctx, b):
+    """None, or (drop body, [blocks of drop calling b]) when b is `<FnRef as Drop>::drop` itself (no blocks) or a crate-local
+    function called only from it with drop's own `self` as first argument (`self.done_notify()`)."""
+    fb, fl = ctx.fb, ctx.model.flow
+    sig = fb.fns.get(b.id, {})
+    if sig.get("impl_trait") == "std::ops::Drop" and (sig.get("impl_self") or "").startswith("fn_ref::FnRef"):
+        return b, []
+    if b.kind != "fn" or not (sig.get("impl_self") or "").startswith("fn_ref::FnRef"):
+        return None
+    sites = [(cb, cbb, ct) for (cb, cbb, ct) in fl.call_sites().get(b.id, []) if not fb.is_test_body(cb)]
+    if not sites:
+        return None
+    drop_b = None
+    bbs = []
+    for cb, cbb, ct in sites:
+        csig = fb.fns.get(cb.id, {})
+        if not (csig.get("impl_trait") == "std::ops::Drop" and (csig.get("impl_self") or "").startswith("fn_ref::FnRef")):
+            return None
+        srcs = fl.sources_operand(cb, ct["args"][0]) if ct["args"] else frozenset()
+        if not srcs or not all(x.kind == "param" and x[2] == 1 and not x[3] for x in srcs):
+            return None
+        drop_b = cb
+        bbs.append(cbb)
+    return drop_b, bbs
+
+
 def S4(ctx, rule="S4", liveness=False):
     m, fb, fl = ctx.model, ctx.fb, ctx.model.flow
     n_item = 0
@@ -1690,7 +1801,8 @@ def S4(ctx, rule="S4", liveness=False):
         where = m.where(b, bb)
         # FnRef::drop
         sig = fb.fns.get(b.id, {})
-        if sig.get("impl_trait") == "std::ops::Drop" and (sig.get("impl_self") or "").startswith("fn_ref::FnRef"):
+        dfr = fnref_drop_frame(ctx, b)
+        if dfr is not None:
             srcs = fl.sources_operand(b, t["args"][0])
             ok_tx = all(x.kind == "param" and x[2] == 1 and x[3][:1] == (m.fnref_tx_field,) for x in srcs) and srcs
             idsrc = fl.sources_operand(b, t["args"][1])
@@ -1706,7 +1818,10 @@ def S4(ctx, rule="S4", liveness=False):
                       "FnRef::drop sends %s on %s" % ([fmt_src(x) for x in idsrc], [fmt_src(x) for x in srcs]))
             drop_sends = [s2["bb"] for s2 in m.send_sites() if s2["body"].id == b.id]
             if liveness:
-                ctx.check(b.all_paths_pass(0, drop_sends, b.exits()), rule, "fnref-drop-always", where,
+                always = b.all_paths_pass(0, drop_sends, b.exits())
+                if dfr[1]:
+                    always = always and dfr[0].all_paths_pass(0, dfr[1], dfr[0].exits())
+                ctx.check(always, rule, "fnref-drop-always", where,
                           "every path through FnRef::drop reaches the done-send: no condition (panicking thread, flag, id) lets a reference go away unreported",
                           "some path through FnRef::drop returns without the done-send: a reference dropped on that path is never reported and its successors are never released")
             continue
@@ -2053,6 +2168,20 @@ def monotone_of_node_count(ctx, body, e, depth=0):
     return False, None
 
 
+def inline_local_calls(ctx, e, depth=0):
+    """replace calls of private single-expression helpers (`channel_capacity(g)`) by their return expression with the
+    arguments substituted"""
+    from rules_build import subst_args
+    fb = ctx.fb
+    e0 = strip_refs(e)
+    if depth < 3 and e0.kind == "call" and e0[1] in fb.bodies and fb.bodies[e0[1]].kind == "fn":
+        hb = fb.bodies[e0[1]]
+        re_ = return_expr(hb)
+        if re_ is not None:
+            return inline_local_calls(ctx, subst_args(re_, [strip_refs(x) for x in e0[2]]), depth + 1)
+    return e
+
+
 def capacity_lower_bound(e):
     """least value of a capacity expression over all graphs (node_count >= 0); None = unknown"""
     e = strip_refs(e)
@@ -2094,7 +2223,7 @@ def S6(ctx, rule="S6", roles_filter=None):
         if capop is None:
             ctx.unverifiable(rule, key, where, "capacity of the %s channel not found (allocated through a wrapper)" % role)
             continue
-        e = expr_operand(b, capop)
+        e = inline_local_calls(ctx, expr_operand(b, capop))
         lb = capacity_lower_bound(e)
         ctx.check(lb is not None and lb >= 1, rule, key + "|nonzero", where,
                   "%s channel capacity `%s` is at least %s for every graph (tokio's mpsc::channel panics on capacity 0)" % (role, fmt_expr(e, b), lb),
@@ -2138,7 +2267,7 @@ def S7(ctx, rule="S7"):
     for s in m.send_sites():
         b, bb, t = s["body"], s["bb"], s["t"]
         sig = fb.fns.get(b.id, {})
-        is_drop = sig.get("impl_trait") == "std::ops::Drop"
+        is_drop = sig.get("impl_trait") == "std::ops::Drop" or fnref_drop_frame(ctx, b) is not None
         kinds, _ = classify_sent_value(ctx, b, t["args"][1])
         if "READY" in s["roles"] and kinds == {"child"}:
             what = "release-loop try_send on READY"
